@@ -94,7 +94,7 @@ Proof. exact load_single_valued. Qed.
    functions (oracle); knownb = false because for the recorded classes the re-loaded tree differs (C01_reload_identity_refuted;
    what is read back instead: C01_value_reload, C01_reload_merged); set_version t = t because ArxmlFile::serialize first rewrites the
    root's xsi:schemaLocation to the canonical spelling - for a root with another accepted spelling the statement holds
-   for the rewritten tree, not for t. *)
+   for the rewritten tree, not for t: C08_no_holes_rewritten. *)
 Theorem C08_no_holes :
   forall (T : tables) (tab_el tab_at tab_en : nametab) (check_fn : N -> list N -> res bool)
          (float_fmt : N -> list N) (float_parse : list N -> option N) (b : bool) (bs : list N) (t : etree) (st : pstate),
@@ -110,6 +110,23 @@ Theorem C08_no_holes :
        p_warnings st' = [] /\ p_version st' = p_version st /\ AcceptedValid T check_fn (p_version st') t /\
        serialize_file T tab_el tab_at tab_en check_fn float_fmt (p_version st') sa t = Val bs').
 Proof. exact no_holes. Qed.
+
+(* [U] part (ii) without the premise on the root's xsi:schemaLocation spelling: t' is the tree after ArxmlFile::serialize
+   rewrote that attribute (set_version; it changes nothing else, and t' = t for the canonical spelling: C01_set_version_shape).
+   The written document of t is accepted strictly with the tree t', which is StrictValid.  The premise set_version = Val t'
+   only says that the rewrite did not stop (it can only for a Pattern-typed attribute whose validator panics). *)
+Theorem C08_no_holes_rewritten :
+  forall (T : tables) (tab_el tab_at tab_en : nametab) (check_fn : N -> list N -> res bool)
+         (float_fmt : N -> list N) (float_parse : list N -> option N) (b : bool) (bs : list N) (t : etree) (st : pstate) (t' : etree),
+  load b T tab_el tab_at tab_en check_fn float_parse bs = Val (Ret t st) -> p_warnings st = [] ->
+  canon_hyps T tab_el tab_at tab_en float_fmt float_parse -> knownb T t = false ->
+  Serializer.set_version T tab_at check_fn (p_version st) t = Val t' ->
+  forall sa, exists bs',
+    serialize_file T tab_el tab_at tab_en check_fn float_fmt (p_version st) sa t = Val bs' /\
+    exists st', load true T tab_el tab_at tab_en check_fn float_parse bs' = Val (Ret t' st') /\
+      p_warnings st' = [] /\ p_version st' = p_version st /\ AcceptedValid T check_fn (p_version st') t' /\
+      serialize_file T tab_el tab_at tab_en check_fn float_fmt (p_version st') sa t' = Val bs'.
+Proof. exact no_holes_rewritten. Qed.
 
 (* AcceptedValid T check_fn ver t (Xml/StrictValidNoHoles.v) is, verbatim, the conclusion of C08_accepted_is_valid_partial *)
 Theorem C08_accepted_valid_unfold :
